@@ -1,5 +1,5 @@
 #!/usr/bin/env python3
-"""tools/regen.py — run the translators of every claimed property against /repo (rewrites lean/OtelVerif/Gen/*.lean).
+"""tools/regen.py [Cxx ...] — run the translators of every claimed property against /repo (rewrites lean/OtelVerif/Gen/*.lean).
 Used by setup.sh so that the build never depends on a stale committed copy of a generated file."""
 import importlib
 import json
@@ -10,7 +10,7 @@ HERE = os.path.dirname(os.path.dirname(os.path.abspath(__file__)))
 sys.path.insert(0, HERE)
 from lib import runner  # noqa: E402
 
-claimed = sorted(json.load(open(os.path.join(HERE, "tools", "claims.json")))["claimed"])
+claimed = [a for a in sys.argv[1:]] or sorted(json.load(open(os.path.join(HERE, "tools", "claims.json")))["claimed"])
 bad = 0
 for pid in claimed:
     spec = importlib.import_module("lib.props." + pid.lower()).SPEC
